@@ -1,7 +1,17 @@
-"""C05 — queued processing is run-to-completion, FIFO and exactly-once."""
-from .. import common, flat, flatcheck
+"""C05 — queued processing is run-to-completion, FIFO and exactly-once.
+
+Flat synchronous engine: streams `queued`, `unqueued`, `queued-classes`, `async-queued` (flatcheck machinery).
+Transports (theorems in lean/Props/C05N.lean, C05A.lean, C05M.lean):
+  `nested-queued`, `nested-unqueued`   hierarchical classes, harness/nested5.py
+  `async-monitor`                      AsyncMachine with queued=True (acceptor `C05.idle`) and queued='model' on
+                                       several models (acceptor `C05M.accept`, one queue per model)"""
+import json
+import random
+
+from .. import common, flat, flatcheck, runner, nested5
 from ..common import SLOT
 from ..flat import TRIGGER, REMOVE
+from ..runner import Exploration, Failure
 
 
 def add_marker(d, rng):
@@ -90,6 +100,91 @@ def async_oracle(d, r):
     return out
 
 
+# ---------------------------------------------------------------------------------------------
+# async-monitor: the verified acceptors on implementation traces of AsyncMachine
+# ---------------------------------------------------------------------------------------------
+
+ASYNC_MONITOR = dict(quick=(8, 60), thorough=(32, 400))
+
+
+def knobs_async_monitor():
+    k = knobs_async()
+    k.max_models = 3
+    k.p_cmds = 0.4
+    return k
+
+
+def gen_async_monitor(rng):
+    from .. import aflat
+    d = flat.gen_flat(rng, knobs_async_monitor())
+    add_marker(d, rng)
+    qm = rng.choice((1, 2, 2))
+    # (decorate with qmode=1: all models are kept; a callback that awaits triggers sits alone in its stage)
+    aflat.decorate(d, rng, qmode=1, raise_in_stage=True, keep_kinds=(TRIGGER,))
+    d.qmode = qm
+    return d
+
+
+def async_monitor_judge(d):
+    """-> (failures, run)"""
+    from .. import aflat
+    from transitions.extensions.asyncio import AsyncMachine
+    r = aflat.Run7(d, AsyncMachine, True).run()
+    case = {'stream': 'async-monitor', 'desc': aflat.to_json(d), 'qmode': d.qmode}
+    out = []
+    if r.bad:
+        out.append(Failure('monitor', 'async-arguments', case, {'bad': r.bad[:5]}, signature='C05.args'))
+    kind = 'c05' if d.qmode == 1 else 'c05m'
+    a = common.batch_driver([(kind, [d.finalize[0]] + common.enc_items(r.items))])[0]
+    if a != 'ok':
+        out.append(Failure('monitor', 'verified-monitor:AsyncMachine:queued=%r' % (aflat.QMODES[d.qmode],), case,
+                           {'monitor': a, 'impl_trace': [common.show_item(i) for i in r.items]},
+                           signature='C05.monitor'))
+    return out, r
+
+
+def nested_sessions(items):
+    """number of trigger calls that opened a draining session while another one was in progress (per-model queues)"""
+    depth = n = 0
+    for i, it in enumerate(items):
+        if it[0] == 'call':
+            depth += 1
+        elif it[0] == 'done':
+            depth -= 1
+        elif it[0] == 'api' and depth > 0 and i + 1 < len(items) and items[i + 1][0] == 'call':
+            n += 1
+    return n
+
+
+def async_monitor_chunk(seed, idx, n):
+    from .. import aflat
+    rng = random.Random('C05/async-monitor/%d/%d' % (seed, idx))
+    ex = Exploration()
+    for _ in range(n):
+        d = gen_async_monitor(rng)
+        fs, r = async_monitor_judge(d)
+        ex.evaluations += 1
+        ex.traces_validated += 1
+        if nontrivial(d, r):
+            ex.nontrivial.add(flatcheck.fingerprint(d) + str(d.qmode))
+        st = ex.stats.setdefault('async_monitor', {})
+        key = 'queued=%r models=%d' % (aflat.QMODES[d.qmode], len(d.models))
+        st[key] = st.get(key, 0) + 1
+        if d.qmode == 2:
+            st['nested_sessions'] = st.get('nested_sessions', 0) + nested_sessions(r.items)
+        ex.failures += fs
+    return ex
+
+
+def any_chunk(kind, *args):
+    """one worker entry point for the three kinds of streams"""
+    if kind == 'flat':
+        return flatcheck.chunk(*args)
+    if kind == 'nested':
+        return nested5.chunk(*args)
+    return async_monitor_chunk(*args)
+
+
 class C05(flatcheck.FlatCheck):
     prop = 'C05'
     manifest = dict(
@@ -98,7 +193,14 @@ class C05(flatcheck.FlatCheck):
         note="Trusted: Lean kernel, Model/Core.lean (_process, remove_model) tied by trace equality, acceptor Model/Spec/C05.lean, visibility marker (first finalize callback). Hierarchical machines share Machine._process; their queue behaviour is exercised by the nested correspondence.",
         technique="Lean 4 proof (simulation with an abstract queue) + differential correspondence + verified trace monitor")
     level = 'proof'
-    theorems = ('TM.C05_top_trigger', 'TM.C05_queued_history', 'TM.C05_unqueued_nested_immediate')
+    theorems = ('TM.C05_top_trigger', 'TM.C05_queued_history', 'TM.C05_unqueued_nested_immediate',
+                # hierarchical engine (lean/Props/C05N.lean)
+                'TM.C05N_deferred_trigger', 'TM.C05N_top_trigger', 'TM.C05N_queued_history',
+                'TM.C05N_unqueued_nested_immediate', 'TM.C05N_unqueued_nested_complete',
+                # async engine, queued=True (lean/Props/C05A.lean)
+                'TM.C05A_top_trigger', 'TM.C05A_queued_history', 'TM.C05A_queued_history_obs',
+                'TM.C05A_queued_history_partial',
+                'TM.C05_idle_filter', 'TM.C05_idle_obsC07')
     streams = (
         flatcheck.Stream('queued', knobs_q, monitor=monitor, prepare=add_marker, nontrivial=nontrivial,
                          quick=(16, 300), thorough=(64, 2000)),
@@ -120,8 +222,137 @@ class C05(flatcheck.FlatCheck):
     def assumptions(self):
         return ['the theorem covers re-entrant trigger and remove_model commands; dispatch/may/add_model from '
                 'callbacks are exercised by C10/C12 correspondence only',
-                'unqueued immediacy is decided by model equality (the model nests by construction); hierarchical '
-                'machines share Machine._process and are covered by the C02/C03 correspondence']
+                'flat unqueued immediacy is decided by model equality (the model nests by construction)',
+                'hierarchical engine: the model has ONE model, so the remove_model clause is not expressible there '
+                '(flat engine + class streams cover it); unknown event names go through the queue like any other event '
+                '(HierarchicalMachine.trigger_event), which is what the model does',
+                'hierarchical engine, unqueued: the model tie is claimed when no on_enter / on_exit callback triggers '
+                'events (those callbacks run while the machine is scoped into their state and the nested event is '
+                'dispatched relative to that scope; NestedState._scope is not modelled) - the immediacy oracle still judges '
+                'the implementation traces of such runs',
+                'async classes: triggers are awaited one at a time and a callback that awaits triggers sits alone in its '
+                "stage (the regime of C07); queued='model' on several models is judged by the per-model acceptor "
+                'C05M.accept; remove_model under the async queues is covered by the sync-vs-async twin only']
+
+    # -- streams of three kinds in one worker pool ----------------------------------------------------
+    def explore(self, tier, seed):
+        payloads = []
+        for s in self.streams:
+            nch, per = s.quick if tier == 'quick' else s.thorough
+            payloads += [('flat', self.prop, seed, i, per, s.name) for i in range(nch)]
+        for name, cf in nested5.STREAMS.items():
+            nch, per = cf['quick' if tier == 'quick' else 'thorough']
+            payloads += [('nested', seed, i, per, name) for i in range(nch)]
+        nch, per = ASYNC_MONITOR['quick' if tier == 'quick' else 'thorough']
+        payloads += [('async-monitor', seed, i, per) for i in range(nch)]
+        ex = Exploration()
+        for part in runner.parallel(any_chunk, payloads):
+            ex.merge(part)
+        done = set()
+        for f in ex.failures:
+            key = (f.kind, f.what)
+            if key in done:
+                continue
+            done.add(key)
+            try:
+                f.case = runner.shrink(f.case, self.fails_like(f.kind, f.what), self.steps_for(f.case),
+                                       budget=20 if 'hang' in f.what else 300)
+                self.annotate(f)
+            except common.MachineryError:
+                raise
+            except BaseException:
+                pass
+        return ex
+
+    @staticmethod
+    def kind_of(case):
+        if case['stream'] in nested5.STREAMS:
+            return 'nested'
+        if case['stream'] == 'async-monitor':
+            return 'async-monitor'
+        return 'flat'
+
+    def steps_for(self, case):
+        k = self.kind_of(case)
+        if k == 'nested':
+            return nested5.shrink_steps
+        if k == 'async-monitor':
+            def steps(c):
+                for x in flatcheck.shrink_steps(c):
+                    yield dict(c, desc=x['desc'])
+            return steps
+        return flatcheck.shrink_steps
+
+    def failures_of(self, case):
+        k = self.kind_of(case)
+        if k == 'nested':
+            return nested5.rejudge(case)[0]
+        if k == 'async-monitor':
+            from .. import aflat
+            d = aflat.from_json(case['desc'])
+            d.qmode = case['qmode']
+            return async_monitor_judge(d)[0]
+        return self.rejudge(case)[4]
+
+    def fails_like(self, kind, what):
+        def f(case):
+            return any(x.kind == kind and x.what == what for x in self.failures_of(case))
+        return f
+
+    def annotate(self, f):
+        k = self.kind_of(f.case)
+        if k == 'flat':
+            return flatcheck.FlatCheck.annotate(self, f)
+        for x in self.failures_of(f.case):
+            if x.kind == f.kind and x.what == f.what:
+                f.details['shrunk'] = x.details
+
+    def search(self, tier, seed, failures):
+        payloads = []
+        for s in self.streams:
+            if s.monitor or s.oracle:
+                payloads += [('flat', self.prop, seed + 7919, i, 250, s.name) for i in range(24)]
+        for name in nested5.STREAMS:
+            payloads += [('nested', seed + 7919, i, 120, name) for i in range(16)]
+        payloads += [('async-monitor', seed + 7919, i, 150) for i in range(8)]
+        found = []
+        for part in runner.parallel(any_chunk, payloads):
+            found += [f for f in part.failures if f.kind == 'monitor']
+        for f in found[:1]:
+            f.case = runner.shrink(f.case, self.fails_like(f.kind, f.what), self.steps_for(f.case))
+            self.annotate(f)
+        return found
+
+    def replay(self, path):
+        with open(path) as fh:
+            payload = json.load(fh)
+        if 'case' not in payload:
+            print('no concrete input in this replay file: broken obligation', payload.get('broken_obligation'))
+            return 1
+        case = payload['case']
+        k = self.kind_of(case)
+        if k == 'flat':
+            return flatcheck.FlatCheck.replay(self, path)
+        if k == 'nested':
+            return nested5.replay(case)
+        from .. import aflat
+        d = aflat.from_json(case['desc'])
+        d.qmode = case['qmode']
+        fs, r = async_monitor_judge(d)
+        print('AsyncMachine queued=%r models=%r' % (aflat.QMODES[d.qmode], d.models))
+        for i in r.items:
+            print('   ', common.show_item(i))
+        for f in fs:
+            print('FAIL', f.kind, f.what)
+        return 1 if fs else 0
+
+    def leanchecker(self):
+        import subprocess
+        mods = ['Props.C05', 'Props.C05N', 'Props.C05A']
+        p = subprocess.run(['lake', 'env', 'leanchecker'] + mods, cwd=common.LEAN, stdout=subprocess.PIPE,
+                           stderr=subprocess.STDOUT, text=True)
+        if p.returncode != 0:
+            raise common.MachineryError('leanchecker failed: %s' % p.stdout[-1500:])
 
 
 CHECK = C05()
